@@ -40,13 +40,18 @@ func init() {
 			"the element ids read from the query result (never the position in the hit list or a constant), the tree is built over exactly those " +
 			"members in table order, every hit is folded, and the closure sees the table and tree of the iteration that created it. FIELD-OUT: what such " +
 			"a field reports where no member applies, and what a fresh canvas block holds, is a finite constant on the outside of the sign convention " +
-			"(SYM-ALG's interpolation identity holds for finite samples only: an infinite sample gives Inf/Inf = NaN vertices). Not decided: geometric " +
+			"(SYM-ALG's interpolation identity holds for finite samples only: an infinite sample gives Inf/Inf = NaN vertices). COMB-1: the fold over the " +
+			"members containing the point leaves only through its counter test and folds with min. DOM-1: the domain a field constructor declares does " +
+			"not depend on the order of the defining points (no signed point difference as a size) and a box of the defining points is widened by at " +
+			"least the radius. SDF-REF: the distance functions the constructors call are those C19 decides, or compositions of them. Not decided: geometric " +
 			"closeness for non-linear fields, decimal rounding merging distinct vertices at high resolution, degenerate triangles when a sample equals " +
 			"the threshold, whether a shape's declared domain really contains its inside, numeric volume, the parallel variants (C10).",
 		Assumptions: []string{
 			"EliCDavis/vector's Add/Sub/Scale/DivByConstant/Lerp/Midpoint act component-wise (taken from the published API, not re-derived)",
 			"real arithmetic: the interpolant identity is decided over the rationals, not over float64",
 			"a trees query answers with positions of the slice the tree was constructed from (C16 IDENT-1)",
+			"scalar and size parameters of the field constructors (radius, strength, size) are non-negative magnitudes (caller's contract)",
+			"the closed forms of math/sdf are C19's (SDF-FORM / SDF-OP); C09 only checks that marching calls nothing outside C19's table",
 		},
 		Controls: controls,
 		Run:      run,
@@ -125,12 +130,13 @@ func run(c *props.Ctx) {
 	engineSelfTest(c, t)
 	siteControls(c, ctl, ax)
 	fieldIdxRules(c, sp, blockSite == nil || blockSite.inside)
+	domainRules(c, sp)
 	dump(c)
 
 	// vacuity floors guard a *passing* run against rules that silently match nothing; when something is
 	// already reported, downstream rules legitimately did not run and the floors would only add noise
 	for _, o := range c.R.Obs {
-		if !o.Control && o.Verdict != ob.Holds && !strings.HasPrefix(o.Rule, "FIELD-") {
+		if !o.Control && o.Verdict != ob.Holds && !strings.HasPrefix(o.Rule, "FIELD-") && o.Rule != "DOM-1" && o.Rule != "COMB-1" && o.Rule != "SDF-REF" {
 			c.R.Note("vacuity floors not applied: the run already reports %s %s", o.Rule, o.Construct)
 			return
 		}
